@@ -15,6 +15,7 @@ import (
 
 func roleMatrix(cfg *hx.Cfg, do func(id string, c fsmx.Case)) {
 	fsmx.CapabilityProduct(do)
+	fsmx.AddPathTupleProduct(do)
 	for role := 0; role <= 5; role++ {
 		for strict := 0; strict <= 1; strict++ {
 			caps := []string{"a65002", "a65002+r0", "a65002+r1", "a65002+r2", "a65002+r3", "a65002+r4", "a65002+r5", "a65002+r3+r3", "a65002+r0+r3", "r3+a65002+r3+r0"}
